@@ -7,6 +7,12 @@ ENGINES = [
 ]
 
 PHASES = {
+    "C10": [
+        {"pkg": "e1", "test": "TestC10FullState", "phase": "C10/full-state-exchange"},
+    ],
+    "C09": [
+        {"pkg": "e1", "test": "TestC09Broadcasts", "phase": "C09/broadcast-completeness"},
+    ],
     "C16": [
         {"pkg": "e1", "test": "TestC16Store", "phase": "C16/credential-stores"},
     ],
@@ -23,6 +29,18 @@ PHASES = {
 }
 
 META = {
+    "C10": {
+        "engine": "E1-seqx",
+        "technique": "exhaustive enumeration of node-history pairs x lost-gossip subsets x snapshot exchange modes on the real replicated state vs a newest-entry-wins reference",
+        "text": "Every pair of histories (A: up to 3 operations, B: up to 1 (quick) / 2 (thorough)) over 8-10 session / subscription / retained mutators, every subset of the gossip between the nodes lost, then LocalState->MergeRemoteState A->B, B->A or both; a fresh node must list exactly what the sender lists, a lagging node must hold the newer of both copies (removals included), and after both directions the listings must be identical.",
+        "note": "No clock skew here (C08 covers it); reference computed from the decoded broadcasts each node has seen, and cross-checked against each node's listing before the exchange.",
+    },
+    "C09": {
+        "engine": "E1-seqx",
+        "technique": "exhaustive bounded operation sequences on the real replicated state, mirror node fed with the queued broadcasts, listing comparison after every step",
+        "text": "Every sequence of depth 4 (quick) / 5 (thorough) over 25 session / subscription / retained mutators incl. DeleteSession and DeletePeer bulk operations, from an empty node and from a node preloaded with another peer's entries; after each operation the origin's queue is drained into a mirror whose listing must equal the origin's, and every changed key must be named by that operation's broadcast.",
+        "note": "Strictly increasing logical clock through the verif hook VerifSetClock; one broadcast per operation is delivered in order (reordering is C08's subject).",
+    },
     "C16": {
         "engine": "E1-seqx + E2-brokermc",
         "technique": "exhaustive enumeration of credential tables x candidates on the real handlers vs a map model; explicit event exploration of refused/accepted CONNECTs on the in-process broker",
